@@ -12,13 +12,16 @@ Cats1 == CatSet
 Cats2 == {"u8", "i32", "u32", "i64", "f64", "bool", "str", "rA", "cA", "cB"}
 Cats3 == {"u8", "i32", "f64", "bool", "str", "cA", "rB"}
 Cats4 == {"i8", "i32", "u64", "f64", "bool", "str", "rA", "cA", "rB"}
-Cats5 == {"u8", "i32", "f64", "bool", "str", "cA", "rB"}
+Cats5 == {"u8", "i32", "f64", "bool", "str", "cA", "rB", "cD"}
 Cats6 == {"u8", "f64", "str", "cA"}
 Cats8 == {"u8", "i32", "i64", "f64", "bool", "str", "rA", "cB"}
 Cats7 == {"i16", "u32", "f32", "bool", "rA", "cB"}
 TinyIntVals == {7, 10, 15, 21, 27}
 PairArgKinds == {"float", "bool", "str", "bytes", "none", "iA", "iB", "kA", "iC"}
 \* fixes present in the tree under test (the check looks for them in the source and tells TLC)
+SameNames == {"same"}
+AltNames == {"alt"}
+BothNames == {"same", "alt"}
 NoFix == (IF "VERIF_FIX_INTERR" \in DOMAIN IOEnv THEN {"int-error-ignored"} ELSE {})
          \cup (IF "VERIF_FIX_EXTRA" \in DOMAIN IOEnv THEN {"extra-args"} ELSE {})
 
@@ -27,7 +30,7 @@ DumpFile == IF "VERIF_DUMP" \in DOMAIN IOEnv THEN IOEnv.VERIF_DUMP ELSE ""
 DumpConstraint ==
   /\ InDomain
   /\ IF done /\ DumpFile # ""
-       THEN CSVWrite("%1$s", <<ToJson([kind |-> kind, ov |-> S])>>, DumpFile)
+       THEN CSVWrite("%1$s", <<ToJson([kind |-> kind, nm |-> nm, ov |-> S])>>, DumpFile)
        ELSE TRUE
 
 \* development aid: every call on which mechanism and reference disagree (VERIF_DIS=file)
@@ -38,7 +41,7 @@ Disagree == LET cx == SetCtx(S) IN {c \in Calls(S, kind) : LET e == Expected(S, 
 DisConstraint ==
   /\ InDomain
   /\ IF done /\ DisFile # "" /\ Disagree # {}
-       THEN CSVWrite("%1$s", <<ToJson([kind |-> kind, ov |-> S,
-              dis |-> SetToSeq({[a |-> c.a, self |-> c.self, e |-> Expected(S, c), m |-> SetToSeq(PyResults(S, c))] : c \in Disagree})])>>, DisFile)
+       THEN CSVWrite("%1$s", <<ToJson([kind |-> kind, nm |-> nm, ov |-> S,
+              dis |-> SetToSeq({[a |-> c.a, kw |-> c.kw, self |-> c.self, e |-> Expected(S, c), m |-> SetToSeq(PyResults(S, c))] : c \in Disagree})])>>, DisFile)
        ELSE TRUE
 =============================================================================
